@@ -1,10 +1,10 @@
-(* props/C07.v -- PROPERTY C07: chi^2 and the optimization trajectory are independent of the world frame (errors, boxplus and Jacobians of the regenerated programs under a left transform; one Gauss-Newton step of whole SE(3)/SE(2)/R^n graphs; trajectory for any solver that is a function of the linearised system)
+(* props/C07.v -- PROPERTY C07: chi^2 and the optimization trajectory are independent of the world frame (errors, boxplus and Jacobians of the regenerated programs under a left transform; one Gauss-Newton step of whole SE(3)/SE(2)/R^n graphs, also for the assembled system; trajectory for any solver that is a function of the linearised system)
    Only the statement, closed by [exact]; proofs are in proofs/C07_*.v. *)
 From Coq Require Import Reals List.
 From Coquelicot Require Import Coquelicot.
 From GS Require Import ExprR LinAlg Meth MethR Prog Chain Wrap Spec GenR2 GenR3 GenSE2 GenSE3 GenEdges
   C10_SE3 C10_SE3_boxplus C10_SE2 C10_Rn C09_SE3 C09_SE2 C11_main C01_SE3 C01_Rn C01_SE2 C02_model C07_errors C07_equiv C07_traj
-  GraphModel GNSpec C07_jac2 C07_lmk C07_basis C07_traj2 C07_RnJac C03_sums C07_glue C07_ext C07_inst C07_whole C07_wholeRn C07_all.
+  GraphModel GNSpec C07_jac2 C07_lmk C07_basis C07_traj2 C07_RnJac C03_sums C07_glue C07_ext C07_inst C07_whole C07_wholeRn Assembled C07_all.
 Import ListNotations.
 Open Scope R_scope.
 
@@ -104,6 +104,14 @@ Theorem C07 :
      List.Forall (ok2 vs lm) ds -> List.Forall (shape2 vs) ds ->
      solves (glen vs) (spec_H vs (map rec2 ds)) (spec_b vs (map rec2 ds)) d ->
      solves (glen vs) (spec_H vs (map rec2 (map (move2 T) ds))) (spec_b vs (map rec2 (map (move2 T) ds))) (bmul vs (P2 lm T) d)) /\
+  (* ... and for the system that the ASSEMBLY ALGORITHM of lib/GraphModel.v produces (assemble_hessian / assemble_gradient: the model of graph.py's
+     dictionaries and slice writes), through assembly_correct of C03; the transformed description is again well-formed (unit quaternions stay unit) *)
+  (forall vs lm T ds d, length T = 7%nat -> unitq T -> List.Forall (fun v => (0 < v_dim v)%nat) vs ->
+     (forall k, (k < length vs)%nat -> lm k = true -> dim_at vs k = 3%nat) ->
+     List.Forall (ok3 vs lm) ds -> List.Forall (shape3 vs) ds ->
+     solves (glen vs) (assemble_hessian R 0 1 Rplus Rmult vs (map rec3 ds)) (assemble_gradient R 0 Rplus Rmult vs (map rec3 ds)) d ->
+     solves (glen vs) (assemble_hessian R 0 1 Rplus Rmult vs (map rec3 (map (move3 T) ds)))
+            (assemble_gradient R 0 Rplus Rmult vs (map rec3 (map (move3 T) ds))) (bmul vs (P3 lm T) d)) /\
   (* R^n graphs under a translation: the records (hence gradient, Hessian, chi^2, solutions) are literally the same *)
   (forall T2 T3 ds, length T2 = 2%nat -> length T3 = 3%nat -> List.Forall okR ds -> map recR (map (moveR T2 T3) ds) = map recR ds) /\
   (length ex_T = 7%nat /\ unitq ex_T /\ List.Forall (fun v => (0 < v_dim v)%nat) ex_vs /\
